@@ -1,5 +1,6 @@
 """C20 -- file descriptors stay with their message (DESIGN.md section 3, C20)."""
 import itertools
+import struct
 
 from hypothesis import strategies as st
 
@@ -10,7 +11,7 @@ from ..core import Disc, Subcheck, exc_detail, exc_key
 
 PROPERTY_ID = 'C20'
 LEVEL = 'exploration'
-RULE = ('recv also holds messages whose h arguments share an attachment (reference encoder in sharing mode; sub-check recv_shared and a third of the random multi-descriptor messages). send: 1-5 method calls through DBusClientConnection.callRemote on a UNIX-socket transport double, each with '
+RULE = ('recv_bad: a refused message (type 5 / 0, bad UTF-8, truncated array) carrying 1-2 descriptors followed by a call with its own descriptor: the connection ends there or the call gets its own. recv also holds messages whose h arguments share an attachment (reference encoder in sharing mode; sub-check recv_shared and a third of the random multi-descriptor messages). send: 1-5 method calls through DBusClientConnection.callRemote on a UNIX-socket transport double, each with '
         '0-3 unix-fd arguments (top level, in arrays, in structs) mixed with plain values; oracle: for every call the '
         'transport saw sendFileDescriptor for each descriptor in argument order, then the write of that message, whose '
         'header declares exactly that count and whose h arguments are the indices 0..k-1 (strict reference decoder); a '
@@ -633,6 +634,71 @@ def classify_send_again(case):
     return True, labels
 
 
+def enum_recv_bad(tier):
+    """A message the library cannot make sense of (a message type from a later protocol revision, a body that is not what
+    its signature says, an over-long signature) that carries descriptors, followed by an ordinary descriptor message."""
+    for bad in ('type5', 'bad-utf8', 'type0', 'truncated-body'):
+        for nbad in (1, 2):
+            for early in (False, True):
+                for little in (True, False):
+                    yield {'bad': bad, 'nbad': nbad, 'early': early, 'little': little}
+
+
+def run_recv_bad(case):
+    import txdbus.protocol as P
+
+    class Rec(P.BasicDBusProtocol):
+        def __init__(self):
+            self.got = []
+
+        def methodCallReceived(self, m):
+            self.got.append(m)
+        methodReturnReceived = errorReceived = signalReceived = methodCallReceived
+
+    r = Rec()
+    r.transport = N.FakeUnixTransport()
+    r._receivedFDs = []
+    r._authenticated = True
+    n = case['nbad']
+    le = case['little']
+    f = {1: '/o', 2: 'a.b', 3: 'Odd', 9: n}
+    if case['bad'] == 'type5':
+        bad = R.encode_message(5, 3, f, 'h' * n, list(range(100, 100 + n)), le)
+    elif case['bad'] == 'type0':
+        bad = R.encode_message(0, 3, f, 'h' * n, list(range(100, 100 + n)), le)
+    elif case['bad'] == 'bad-utf8':
+        body = struct.pack(('<' if le else '>') + 'I', 2) + b'\xff\xfe\0'
+        bad = R.encode_message(4, 3, f, 's', [], le, raw_body=body)
+    else:
+        bad = R.encode_message(4, 3, f, 'as', [], le, raw_body=struct.pack(('<' if le else '>') + 'I', 400) + b'\0' * 4)
+    good = R.encode_message(1, 4, {1: '/o', 3: 'Now', 9: 1}, 'h', [7], le)
+    bad_fds = list(range(40, 40 + n))
+    events = [('fd', x) for x in bad_fds]
+    if case['early']:
+        events += [('fd', 77), ('read', bad), ('read', good)]
+    else:
+        events += [('read', bad), ('fd', 77), ('read', good)]
+    for kind, item in events:
+        try:
+            if kind == 'fd':
+                r.fileDescriptorReceived(item)
+            else:
+                r.dataReceived(item)
+        except Exception:
+            # the message is refused and the exception leaves dataReceived: the transport drops the connection there, nothing
+            # follows, nothing can be misattributed
+            return []
+    out = []
+    calls = [m for m in r.got if getattr(m, 'member', None) == 'Now']
+    if len(calls) != 1:
+        out.append(Disc('recv_bad.following-message-lost', 'the connection survived the refused message, then delivered %d '
+                        'of the one call that followed' % len(calls)))
+    elif calls[0].body != [77]:
+        out.append(Disc('recv_bad.fd-attribution', 'after a refused message carrying descriptors %r the call sent with descriptor '
+                        '77 was delivered with %r (queue left: %r)' % (bad_fds, calls[0].body, list(r._receivedFDs))))
+    return out
+
+
 SUBCHECKS = [
     Subcheck('send', run_send, classify_send, strategy=lambda tier: send_case(tier),
              n={'quick': 150, 'thorough': 1500}),
@@ -644,6 +710,10 @@ SUBCHECKS = [
     Subcheck('recv_shared', run_recv, classify_recv, enumerate=enum_recv_shared, shards={'quick': 1, 'thorough': 1},
              exhaustive_note='4 argument shapes in which h values share an attachment x followed or not by another descriptor '
                              'message x with / without the handshake in the same stream'),
+    Subcheck('recv_bad', run_recv_bad, lambda c: (True, [c['bad'], 'fd_early' if c['early'] else 'fd_just_in_time']),
+             enumerate=enum_recv_bad, shards={'quick': 1, 'thorough': 1},
+             exhaustive_note='4 kinds of refused message x 1-2 descriptors on it x descriptor of the next message queued before '
+                             '/ after it x byte order'),
     Subcheck('recv_burst', run_recv, classify_recv, enumerate=enum_recv_burst, shards={'quick': 4, 'thorough': 4},
              exhaustive_note='bursts of 6/9/14 descriptor-carrying messages (up to 42 descriptors) with all descriptors '
                              'queued before the first byte, or all but the last few, under four chunkings'),
